@@ -696,7 +696,7 @@ fn exec<'a>(
             let src: pma::ByteSrc = if (fin.len() + pre) % 2 == 0 { Box::new(fin.to_vec().into_iter()) } else { Box::new(fin.to_vec().into_iter().filter(|_| true)) };
             let a = pma.consume_iter(hspec.method, src, pre, style);
             // what taking the slice search's matches (`want`, collected with next()) in that way gives
-            let model = pma::consume(want.iter().copied(), |m| m, pre, style);
+            let model = pma::consume!(want.iter().copied(), |m: Mt| m, pre, style);
             if a != model {
                 viol!(
                     "same-matches",
